@@ -21,6 +21,7 @@
 EXTENDS Integers, Sequences, FiniteSets, TLC, Json
 
 CONSTANTS MaxDepth,
+          Focus,                   \* which actions histories are built from ("all" or a property-directed subset)
           Dev_C12_InputMomentum,   \* the pre-hook uses its default argument 0.9, not the context's momentum
           Dev_C10_GroupSizeLost    \* loading an unfrozen int2/int4 state into a default-quantized / requantize target loses weight_group_size
 
@@ -28,7 +29,7 @@ Archs == {<<"Linear", "Other", "Linear">>, <<"LayerNorm", "Linear">>, <<"Conv2d"
 WQs == {"qint8", "qfloat8", "qint4", "qint2"}
 AQs == {"none", "qint8", "qfloat8"}
 Momenta == {"m50", "m90", "m25"}
-Batches == {"b1", "b2", "b3"}
+Batches == {"b1", "b2", "b3", "bone"}      \* "bone": a batch whose absmax is exactly the storage maximum (scale = 1.0)
 Filters == {"all", "first", "last"}
 
 VARIABLES arch,     \* sequence of module kinds (a chain)
@@ -156,6 +157,8 @@ LoadedModule(sm, target) ==
   IN [sm EXCEPT !.gs = IF lostgs THEN "none" ELSE @]
 Load(target) ==
   /\ pc = "quantized" /\ Bound /\ ctx = <<>> /\ saved.present
+  \* a filtered quantization can only be reloaded into a model quantized with the same filter
+  /\ (target \in {"default", "requantize"}) => prog[1].filter = "all"
   /\ mods' = [i \in 1..Len(mods) |-> LoadedModule(saved.mods[i], target)]
   /\ Log([a |-> "Load", target |-> target])
   /\ UNCHANGED <<arch, ctx, hooks, modes, saved, pc>>
@@ -165,15 +168,28 @@ DeepCopy ==
   /\ Log([a |-> "DeepCopy"])
   /\ UNCHANGED <<arch, mods, ctx, hooks, modes, saved, pc>>
 
-Next ==
-  \/ \E w \in WQs, a \in AQs, f \in Filters : Quantize(w, a, f)
-  \/ \E x \in {"x1", "x2"} : Forward(x)
-  \/ \E m \in Momenta, s \in BOOLEAN : EnterCalib(m, s)
-  \/ \E b \in Batches : CalibBatch(b)
-  \/ \E b \in Batches, k \in 1..3 : RaiseIn(b, k)
-  \/ ExitCalib \/ Freeze \/ OptStep \/ DeepCopy
-  \/ \E s \in {"none", "pickle", "weights_only", "safetensors"} : Save(s)
-  \/ \E t \in {"default", "same", "requantize"} : Load(t)
+ActionsOf(f) ==
+  CASE f = "calib"  -> {"Quantize", "EnterCalib", "CalibBatch", "ExitCalib", "Forward", "RaiseIn"}
+    [] f = "serial" -> {"Quantize", "EnterCalib", "CalibBatch", "ExitCalib", "Freeze", "Save", "Load", "Forward"}
+    [] f = "freeze" -> {"Quantize", "EnterCalib", "CalibBatch", "ExitCalib", "Freeze", "DeepCopy", "Forward"}
+    [] f = "train"  -> {"Quantize", "OptStep", "Forward", "Freeze"}
+    [] OTHER        -> {"Quantize", "EnterCalib", "CalibBatch", "ExitCalib", "Forward", "RaiseIn", "Freeze", "Save", "Load", "DeepCopy", "OptStep"}
+On(a) == a \in ActionsOf(Focus)
+
+ActQuantize   == \E w \in WQs, a \in AQs, f \in Filters : Quantize(w, a, f)
+ActForward    == On("Forward") /\ \E x \in {"x1", "x2"} : Forward(x)
+ActEnterCalib == On("EnterCalib") /\ \E m \in Momenta, s \in BOOLEAN : EnterCalib(m, s)
+ActCalibBatch == On("CalibBatch") /\ \E b \in Batches : CalibBatch(b)
+ActRaiseIn    == On("RaiseIn") /\ \E b \in Batches, k \in 1..3 : RaiseIn(b, k)
+ActExitCalib  == On("ExitCalib") /\ ExitCalib
+ActFreeze     == On("Freeze") /\ Freeze
+ActOptStep    == On("OptStep") /\ OptStep
+ActDeepCopy   == On("DeepCopy") /\ DeepCopy
+ActSave       == On("Save") /\ \E s \in {"none", "pickle", "weights_only", "safetensors"} : Save(s)
+ActLoad       == On("Load") /\ \E t \in {"default", "same", "requantize"} : Load(t)
+
+Next == ActQuantize \/ ActForward \/ ActEnterCalib \/ ActCalibBatch \/ ActRaiseIn \/ ActExitCalib
+        \/ ActFreeze \/ ActOptStep \/ ActDeepCopy \/ ActSave \/ ActLoad
 
 (* ---- abstract properties ------------------------------------------------------------------------------ *)
 \* C08: exactly the eligible, selected modules are swapped; the others are untouched
